@@ -67,6 +67,65 @@ def run_fuzz_campaigns(check, cid, seed, procs, runs, st):
     return total
 
 
+def _pool_map(ctx, n, fn, tasks, tier):
+    """pool.map that cannot hang: a worker that dies abruptly (killed, out of memory inside C code) loses its task and
+    multiprocessing.Pool.map would wait for it forever.  Every task runs in a process of its own; a worker that exits
+    without a result, or the whole phase exceeding a generous wall-clock ceiling, is a HARNESS error (exit 2,
+    inconclusive) - never a violation."""
+    import time
+    ceiling = float(os.environ.get('PPV_PHASE_CEILING_S', 5400 if tier == 'thorough' else 1500))
+    pending = list(enumerate(tasks))
+    running = {}        # index -> (process, connection)
+    results = {}
+    deadline = time.time() + ceiling
+
+    def child(conn, task):
+        try:
+            conn.send(fn(task))
+        except BaseException as e:      # noqa
+            try:
+                conn.send(('harness', 'worker failed: %r' % (e,)))
+            except Exception:
+                pass
+        finally:
+            conn.close()
+    while pending or running:
+        while pending and len(running) < n:
+            i, task = pending.pop(0)
+            parent_conn, child_conn = ctx.Pipe(duplex=False)
+            p = ctx.Process(target=child, args=(child_conn, task))
+            p.start()
+            child_conn.close()
+            running[i] = (p, parent_conn)
+        progressed = False
+        for i, (p, conn) in list(running.items()):
+            if conn.poll(0.05):
+                try:
+                    results[i] = conn.recv()
+                except EOFError:
+                    results[i] = ('harness', 'worker %d exited without a result (exit code %r)' % (i, p.exitcode))
+                p.join()
+                conn.close()
+                del running[i]
+                progressed = True
+            elif not p.is_alive():
+                p.join()
+                results[i] = ('harness', 'worker %d died without a result (exit code %r)' % (i, p.exitcode))
+                conn.close()
+                del running[i]
+                progressed = True
+        if time.time() > deadline:
+            for i, (p, conn) in running.items():
+                p.kill()
+                results[i] = ('harness', 'phase exceeded its wall-clock ceiling of %d s (inconclusive)' % ceiling)
+            for i, task in pending:
+                results[i] = ('harness', 'phase exceeded its wall-clock ceiling of %d s (inconclusive)' % ceiling)
+            break
+        if not progressed:
+            time.sleep(0.05)
+    return [results[i] for i in range(len(tasks))]
+
+
 def main(argv=None):
     ap = argparse.ArgumentParser()
     ap.add_argument('id')
@@ -142,8 +201,7 @@ def main(argv=None):
     # 3. bounded-exhaustive tier ------------------------------------------------
     if not harness_errors and hasattr(check, 'enumerate_cases') and budget.get('exhaustive', True):
         n = args.procs
-        with ctx.Pool(n, maxtasksperchild=1) as pool:
-            outs = pool.map(core._worker_enumerate, [(cid, args.tier, i, n, 5) for i in range(n)])
+        outs = _pool_map(ctx, n, core._worker_enumerate, [(cid, args.tier, i, n, 5) for i in range(n)], args.tier)
         for kind, payload in outs:
             if kind == 'ok':
                 st.merge(payload)
@@ -155,8 +213,7 @@ def main(argv=None):
         shards = budget.get('shards', args.procs)
         per = max(1, int(budget['random'] * args.scale) // shards)
         sb = budget.get('shrink_s', 20 if args.tier == 'quick' else 90)
-        with ctx.Pool(min(shards, args.procs), maxtasksperchild=1) as pool:
-            outs = pool.map(core._worker_random, [(cid, args.tier, seed, i, per, sb) for i in range(shards)])
+        outs = _pool_map(ctx, min(shards, args.procs), core._worker_random, [(cid, args.tier, seed, i, per, sb) for i in range(shards)], args.tier)
         for kind, payload in outs:
             if kind == 'ok':
                 st.merge(payload)
